@@ -707,12 +707,6 @@ def _g(r):
                                    {r.randbytes(3): r.randbytes(32)}, 5, r.randbytes(4))
 
 
-@_iq("sync.get")
-def _g(r):
-    from yowsup.layers.protocol_contacts.protocolentities import GetSyncIqProtocolEntity
-    return GetSyncIqProtocolEntity(["+%d" % r.randint(10 ** 9, 10 ** 12) for _ in range(r.randint(1, 4))])
-
-
 @_iq("clean")
 def _g(r):
     from yowsup.layers.protocol_ib.protocolentities import CleanIqProtocolEntity
@@ -761,11 +755,24 @@ def req(name, module, result_cls, error_cls):
     return deco
 
 
-@req("ping", None, "ResultIqProtocolEntity", None)
+@req("ping", None, "IqProtocolEntity", "ErrorIqProtocolEntity")
 def _g(r):
     from yowsup.layers.protocol_iq.protocolentities import PingIqProtocolEntity
     e = PingIqProtocolEntity(to=SRV)
     return e, lambda i: _res(i, SRV)
+
+
+@req("sync.get", None, "ResultSyncIqProtocolEntity", "ErrorIqProtocolEntity")
+def _g(r):
+    from yowsup.layers.protocol_contacts.protocolentities import GetSyncIqProtocolEntity
+    e = GetSyncIqProtocolEntity(["+%d" % r.randint(10 ** 9, 10 ** 12) for _ in range(r.randint(1, 4))])
+
+    def reply(i):
+        def users(t):
+            return N(t, {}, [N("user", {"jid": rjid(r)}, None, b"+4915")])
+        return _res(i, SRV, [N("sync", attrs(sid=str(r.randint(1, 10 ** 17)), index="0", last="true", version=rts(r)),
+                               [users("in"), users("out"), N("invalid", {}, [N("user", {}, None, b"abc")])])])
+    return e, reply
 
 
 @req("lastseen", None, "ResultLastseenIqProtocolEntity", "ErrorIqProtocolEntity")
@@ -797,13 +804,13 @@ _greq("info", "InfoGroupsResultIqProtocolEntity", "ErrorIqProtocolEntity",
 _greq("leave", "SuccessLeaveGroupsIqProtocolEntity", "ErrorIqProtocolEntity",
       lambda r: (lambda j: (_G().LeaveGroupsIqProtocolEntity([j]), j))(rgjid(r)),
       lambda r, i, j: _res(i, "g.us", [N("leave", {}, [N("group", {"id": j})])]))
-_greq("list", "ListGroupsResultIqProtocolEntity", None,
+_greq("list", "ListGroupsResultIqProtocolEntity", "ErrorIqProtocolEntity",
       lambda r: (_G().ListGroupsIqProtocolEntity(r.choice(["participating", "owning"])), None),
       lambda r, i, c: _res(i, "g.us", [N("groups", {}, [_grp(r) for _ in range(r.randint(0, 3))])]))
-_greq("subject", "ResultIqProtocolEntity", "ErrorIqProtocolEntity",
+_greq("subject", "IqProtocolEntity", "ErrorIqProtocolEntity",
       lambda r: (lambda j: (_G().SubjectGroupsIqProtocolEntity(j, rtxt(r).encode("utf-8")), j))(rgjid(r)),
       lambda r, i, j: _res(i, j))
-_greq("participants", "ListParticipantsResultIqProtocolEntity", None,
+_greq("participants", "ListParticipantsResultIqProtocolEntity", "ErrorIqProtocolEntity",
       lambda r: (lambda j: (_G().ParticipantsGroupsIqProtocolEntity(j, [rjid(r)], "add"), j))(rgjid(r)),
       lambda r, i, j: _res(i, j, _parts(r)))
 
@@ -817,9 +824,9 @@ def _pres(r, i, j):
 _greq("participants.add", "SuccessAddParticipantsIqProtocolEntity", "FailureAddParticipantsIqProtocolEntity",
       lambda r: (lambda j: (_G().AddParticipantsIqProtocolEntity(j, [rjid(r) for _ in range(r.randint(1, 3))]), j))(rgjid(r)),
       _pres)
-_greq("participants.promote", "ResultIqProtocolEntity", "ErrorIqProtocolEntity",
+_greq("participants.promote", "IqProtocolEntity", "ErrorIqProtocolEntity",
       lambda r: (lambda j: (_G().PromoteParticipantsIqProtocolEntity(j, [rjid(r)]), j))(rgjid(r)), _pres)
-_greq("participants.demote", "ResultIqProtocolEntity", "ErrorIqProtocolEntity",
+_greq("participants.demote", "IqProtocolEntity", "ErrorIqProtocolEntity",
       lambda r: (lambda j: (_G().DemoteParticipantsIqProtocolEntity(j, [rjid(r)]), j))(rgjid(r)), _pres)
 _greq("participants.remove", "SuccessRemoveParticipantsIqProtocolEntity", "ErrorIqProtocolEntity",
       lambda r: (lambda j: (_G().RemoveParticipantsIqProtocolEntity(j, [rjid(r)]), j))(rgjid(r)), _pres)
@@ -871,7 +878,7 @@ def _g(r):
         lambda i: _res(i, SRV, [N("status", {}, [N("user", {"jid": j, "t": rts(r)}, None, rtxt(r).encode()) for j in js])])
 
 
-@req("status.set", "profiles", "ResultIqProtocolEntity", "ErrorIqProtocolEntity")
+@req("status.set", "profiles", "IqProtocolEntity", "ErrorIqProtocolEntity")
 def _g(r):
     return _P().SetStatusIqProtocolEntity(rtxt(r).encode("utf-8")), lambda i: _res(i, SRV)
 
